@@ -45,20 +45,21 @@ type schedMsg struct {
 }
 
 type Task struct {
-	ID       int
-	resume   chan struct{}
-	fn       func(t *Task)
-	quantum  int
-	own      uint64 // own statements since last event
-	lastSite int32
-	die      bool
-	state    int // 0 runnable, 1 blocked on harness condition, 2 done, 3 abandoned
-	cond     func() bool
-	wakeFn   func() uint64 // simulated time at which a blocked task's condition may start to hold (0 = unknown)
-	stallTo  uint64
-	prio     int
-	s        *Sched
-	lockWait uint64 // 1 + progress counter when the task last failed to take a library lock (0 = not waiting)
+	ID        int
+	resume    chan struct{}
+	fn        func(t *Task)
+	quantum   int
+	own       uint64 // own statements since last event
+	lastSite  int32
+	die       bool
+	state     int // 0 runnable, 1 blocked on harness condition, 2 done, 3 abandoned
+	cond      func() bool
+	wakeFn    func() uint64 // simulated time at which a blocked task's condition may start to hold (0 = unknown)
+	stallTo   uint64
+	prio      int
+	s         *Sched
+	locksHeld int    // library locks this task holds (cooperative TryLock successes minus releases)
+	lockWait  uint64 // 1 + progress counter when the task last failed to take a library lock (0 = not waiting)
 }
 
 var schedDebug = os.Getenv("VF_SCHED_DEBUG") != ""
@@ -92,6 +93,7 @@ type Sched struct {
 	Switches    int
 	SwitchSet   map[[2]int32]struct{}
 	OnEvent     func(ev *Event) // scheduler goroutine; may record a violation via s.Fail
+	OnLockWait  func(t *Task)   // scheduler goroutine: task t could not take a library lock
 	StallP      int             // per-mille probability that a scheduling decision stalls a task
 	AbandonP    int
 	Stalls      int
@@ -205,6 +207,20 @@ func (s *Sched) lockBlocked() {
 //go:norace
 func (t *Task) BlockUntil(cond func() bool, wake func() uint64) {
 	t.handoff(schedMsg{kind: mBlock, cond: cond, wakeFn: wake, site: -2})
+}
+
+//go:norace
+func (s *Sched) lockTaken() {
+	if t := s.cur; t != nil && !s.dying {
+		t.locksHeld++
+	}
+}
+
+//go:norace
+func (s *Sched) lockReleased() {
+	if t := s.cur; t != nil && !s.dying && t.locksHeld > 0 {
+		t.locksHeld--
+	}
 }
 
 // onceEnter / onceExit bracket `X.Do(f)` statements of the library (sync.Once): a task that arrives
@@ -331,10 +347,12 @@ func (s *Sched) Run() {
 	hessian.VfStep = s.stepHook
 	hessian.VfBlocked = s.lockBlocked
 	hessian.VfOnceEnter, hessian.VfOnceExit = s.onceEnter, s.onceExit
+	hessian.VfLockTaken, hessian.VfLockReleased = s.lockTaken, s.lockReleased
 	defer func() {
 		hessian.VfStep = nil
 		hessian.VfBlocked = nil
 		hessian.VfOnceEnter, hessian.VfOnceExit = nil, nil
+		hessian.VfLockTaken, hessian.VfLockReleased = nil, nil
 	}()
 	if s.Policy == polPCT {
 		for _, t := range s.tasks {
@@ -465,6 +483,9 @@ func (s *Sched) Run() {
 			case mLockWait:
 				t.lockWait = s.progress + 1 // eligible again once some other task has really run (or time advanced)
 				s.LockWaits++
+				if s.OnLockWait != nil {
+					s.OnLockWait(t)
+				}
 				s.fp.Add(0x10c4, uint64(t.ID))
 			}
 		case <-timer.C:
